@@ -321,6 +321,29 @@ def check_no_inplace_on_borrowed(quals, prop):
                         borrowed.setdefault(n.targets[0].id, n.lineno)
         bad = []
         rel = os.path.relpath(fs.path, extract.REPO)
+        # containers (dict / list: e.g. a table's metadata) handed in by the caller: x = arg.attr (no copy) followed by x.pop(..) / x.update(..) /
+        # del x[..] empties or rewrites the CALLER's container.  Only names bound exactly once are considered (a rebinding `x = dict(x)` makes a
+        # private object).
+        nbind = {}
+        for n in ast.walk(fn):
+            if isinstance(n, (ast.Assign, ast.AugAssign, ast.AnnAssign)):
+                for t in (n.targets if isinstance(n, ast.Assign) else [n.target]):
+                    for nm in ast.walk(t):
+                        if isinstance(nm, ast.Name) and isinstance(nm.ctx, ast.Store):
+                            nbind[nm.id] = nbind.get(nm.id, 0) + 1
+        CONTAINER = ("pop", "popitem", "update", "clear", "setdefault", "append", "extend", "insert", "remove", "reverse")
+        for n in ast.walk(fn):
+            if isinstance(n, ast.Call) and isinstance(n.func, ast.Attribute) and n.func.attr in CONTAINER:
+                base = n.func.value
+                if isinstance(base, ast.Name) and base.id in borrowed and nbind.get(base.id, 0) == 1:
+                    bad.append(f"{rel}:{n.lineno} `{ast.unparse(n)}` changes the container bound at line {borrowed[base.id]} (a piece of an argument, not a copy)")
+                elif isinstance(base, ast.Attribute) and isinstance(root(base), ast.Name) and root(base).id in params \
+                        and root(base).id not in ("self", "cls") and nbind.get(root(base).id, 0) == 0:
+                    bad.append(f"{rel}:{n.lineno} `{ast.unparse(n)}` changes a container of the caller's argument `{root(base).id}`")
+            if isinstance(n, ast.Delete):
+                for t in n.targets:
+                    if isinstance(t, ast.Subscript) and isinstance(t.value, ast.Name) and t.value.id in borrowed and nbind.get(t.value.id, 0) == 1:
+                        bad.append(f"{rel}:{n.lineno} `{ast.unparse(n)}` deletes from the container bound at line {borrowed[t.value.id]} (a piece of an argument)")
         for n in ast.walk(fn):
             if isinstance(n, ast.AugAssign) and isinstance(n.target, ast.Name) and n.target.id in borrowed:
                 bad.append(f"{rel}:{n.lineno} `{ast.unparse(n)}` updates in place the object bound at line {borrowed[n.target.id]} (a piece of an argument)")
